@@ -49,4 +49,5 @@ PROPS = {
         "explanation": "PARTIAL by design: lockset soundness theorem (any number of threads, any schedule) + vm_compute check of the table regenerated from /repo; the runtime half is the race-detector harness (context reader/writer mixes, shared template with separate contexts incl. children of one parent, cache on/off), every concurrent result compared with the sequential one",
     },
     "LEX": {"level": "other", "cone": [], "explanation": "internal: lexer model vs lexer.NextToken"},
+    "PARSE": {"level": "other", "cone": [], "explanation": "internal: parser model vs parser.Parse"},
 }
